@@ -508,6 +508,8 @@ fn run_history<T: Payload>(cap: &str, flavor: &str, labels: &[String], out: &mut
             list(o.back.iter().map(|t| tagstr(*t)))
         )
         .unwrap();
+        // a later call may hang or abort: what was observed so far must be visible
+        out.flush().unwrap();
     }
     // tear down: futures first, then handles; whatever is dropped here is reported
     // on a trailer line (values still buffered die with the last handle)
@@ -533,16 +535,18 @@ pub fn main() {
     kanal::verif::install(Box::new(shim::SeqHandler));
     shim::parallelism_from_env();
     // watchdog: a call that does not return is a hang of the implementation
-    std::thread::spawn(|| {
+    let tick: u64 = std::env::var("KV_WATCHDOG_MS").ok().and_then(|v| v.parse().ok()).unwrap_or(200);
+    std::thread::spawn(move || {
         let mut last = u64::MAX;
         let mut same = 0;
         loop {
-            std::thread::sleep(Duration::from_millis(500));
+            std::thread::sleep(Duration::from_millis(tick));
             let p = PROGRESS.load(Ordering::Relaxed);
             if p == last {
                 same += 1;
-                if same >= 10 {
-                    println!("HANG history={} label={}", CUR_HIST.load(Ordering::Relaxed), CUR_LABEL.load(Ordering::Relaxed));
+                if same >= 3 {
+                    // stdout is locked by the main thread: report on stderr and through the exit code
+                    eprintln!("HANG history={} label={}", CUR_HIST.load(Ordering::Relaxed), CUR_LABEL.load(Ordering::Relaxed));
                     std::process::exit(3);
                 }
             } else {
